@@ -1095,8 +1095,11 @@ fn run_ay_retrigger(ctx: &Ctx, id: u64, st: &mut Stats) {
                 return;
             }
         }
-        m.run_frames(45);
-        m.drain_audio();
+        // the chip only moves on while its samples are being taken: drain every frame
+        for _ in 0..45 {
+            m.run_frames(1);
+            m.drain_audio();
+        }
         if !matches!(load_szx(&mut m, &file), Ok(Ok(()))) {
             return;
         }
